@@ -431,7 +431,15 @@ func ruleInferredOrderDedup(c *Ctx, rule string) {
 			if lk == nil || g.Pol {
 				continue
 			}
-			if c.mentionsField(lk.X, "Schema.Properties", 4) && (sharesSource(lk.X, mu.Map) || sameFieldLoad(lk.X, mu.Map)) && (lk.Index == key || sharesSource(lk.Index, key) || lk.Index == mu.Key) {
+			sameSchema := sharesSource(lk.X, mu.Map) || sameFieldLoad(lk.X, mu.Map)
+			if !sameSchema && len(fi.Path) > 0 {
+				// the entry is made by a helper: its schema parameter is the schema whose properties were looked up
+				if b1, b2 := baseOfFieldLoad(lk.X), baseOfFieldLoad(mu.Map); b1 != nil && b2 != nil {
+					up := upValue(b2, fi.Path)
+					sameSchema = up == b1 || sharesSource(up, b1)
+				}
+			}
+			if c.mentionsField(lk.X, "Schema.Properties", 4) && sameSchema && (lk.Index == key || sharesSource(lk.Index, key) || lk.Index == mu.Key) {
 				own = true
 			}
 		}
